@@ -7,8 +7,9 @@
 (* Params        abstract cleavage-parameter sets (pool of p = tag p)      *)
 (* nonempty      the directory holds at least one file                     *)
 (* hasMeta       metadata.json exists                                      *)
-(* ver           "ok" | "bad": do the versions recorded in metadata.json   *)
-(*               satisfy MetaVersion.is_valid                              *)
+(* ver           the set of version fields of metadata.json (python,       *)
+(*               biopython, mopepgen) that do NOT satisfy                  *)
+(*               MetaVersion.is_valid; {} = the index is valid             *)
 (* pools         metadata.json's canonical_pools: sequence of [idx, p]     *)
 (* files         existing pool files: idx -> tag of the parameters whose   *)
 (*               pool the file holds                                       *)
@@ -28,7 +29,7 @@ vars == <<nonempty, hasMeta, ver, pools, files, refs, annoLink, last, hist>>
 None == [op |-> "none", p |-> 0, force |-> FALSE, symlink |-> FALSE, status |-> "ok", value |-> 0]
 
 Init ==
-  /\ nonempty = FALSE /\ hasMeta = FALSE /\ ver = "ok" /\ pools = <<>>
+  /\ nonempty = FALSE /\ hasMeta = FALSE /\ ver = {} /\ pools = <<>>
   /\ files = <<>> /\ refs = FALSE /\ annoLink = FALSE /\ last = None /\ hist = <<>>
 
 Idx(ps) == {ps[i].idx : i \in 1..Len(ps)}
@@ -45,7 +46,7 @@ Res(op, p, force, symlink, status, value) ==
 
 (* metadata as IndexDir.__init__ sees it: loaded from disk, or fresh         *)
 MemPools == IF hasMeta THEN pools ELSE <<>>
-MemVer == IF hasMeta THEN ver ELSE "ok"
+MemVer == IF hasMeta /\ ver # {} THEN "bad" ELSE "ok"
 
 (* wipe_canonical_peptides removes the listed files in order and stops with  *)
 (* FileNotFoundError at the first one that is missing                        *)
@@ -74,7 +75,7 @@ Generate(p, force, symlink) ==
             /\ UNCHANGED <<hasMeta, ver, pools, refs, annoLink>>
             /\ Record(Res("generate", p, force, symlink, "error", 0))
           ELSE
-            /\ nonempty' = TRUE /\ hasMeta' = TRUE /\ ver' = "ok"
+            /\ nonempty' = TRUE /\ hasMeta' = TRUE /\ ver' = {}
             /\ pools' = <<[idx |-> 1, p |-> p]>>
             /\ files' = (1 :> p) @@ Restrict(w.files, DOMAIN w.files \ {1})
             /\ refs' = TRUE /\ annoLink' = symlink
@@ -98,7 +99,7 @@ Update(p, force) ==
        LET k == MaxIdx(MemPools) + 1 IN
        /\ pools' = Append(MemPools, [idx |-> k, p |-> p])
        /\ files' = (k :> p) @@ Restrict(files, DOMAIN files \ {k})
-       /\ hasMeta' = TRUE /\ ver' = MemVer /\ nonempty' = TRUE
+       /\ hasMeta' = TRUE /\ ver' = (IF hasMeta THEN ver ELSE {}) /\ nonempty' = TRUE
        /\ UNCHANGED <<refs, annoLink>>
        /\ Record(Res("update", p, force, FALSE, "ok", 0))
 
@@ -117,7 +118,9 @@ Load(p) ==
 (* somebody edits the versions recorded in metadata.json                     *)
 Tamper(f) ==
   /\ Len(hist) < MaxOps /\ hasMeta
-  /\ ver' = IF f = "mopepgen_new" THEN ver ELSE "bad"
+  /\ ver' = CASE f = "mopepgen_new" -> ver \ {"mopepgen"}     \* a newer moPepGen version is accepted
+              [] f = "mopepgen_old" -> ver \cup {"mopepgen"}   \* older than the minimal version
+              [] OTHER -> ver \cup {f}                         \* python / biopython must match exactly
   /\ UNCHANGED <<nonempty, hasMeta, pools, files, refs, annoLink>>
   /\ Record(Res("tamper", 0, FALSE, FALSE, f, 0))
 
